@@ -796,3 +796,54 @@ func everyIteration(in ssa.Instruction) bool {
 	}
 	return true
 }
+
+// rangesWholeSlice: ia is s[i] with i the index of a loop that runs over the whole of s (for i := range s / for i := 0;
+// i < len(s); i++), ia sitting in that loop and executed on every iteration.
+func rangesWholeSlice(ia *ssa.IndexAddr) bool {
+	l := core.InnermostLoop(core.Loops(ia.Parent()), ia.Block())
+	if l == nil || !everyIteration(ia) {
+		return false
+	}
+	// i = φ(-1, i') + 1 tested against len(s), or i = φ(0, i+1) tested against len(s)
+	var phi *ssa.Phi
+	idx := ia.Index
+	first := int64(0)
+	if bo, ok := idx.(*ssa.BinOp); ok && bo.Op == token.ADD {
+		if k, isK := constInt(bo.Y); isK && k == 1 {
+			if ph, isPhi := bo.X.(*ssa.Phi); isPhi {
+				phi, first = ph, 1
+			}
+		}
+	} else if ph, ok := idx.(*ssa.Phi); ok {
+		phi = ph
+	}
+	if phi == nil || phi.Block() != l.Header {
+		return false
+	}
+	startOK := false
+	for _, e := range phi.Edges {
+		if k, isK := constInt(e); isK && k+first == 0 {
+			startOK = true
+		}
+	}
+	if !startOK {
+		return false
+	}
+	// the loop's test: idx < len(s) with the same s
+	for b := range l.Blocks {
+		iff, ok := b.Instrs[len(b.Instrs)-1].(*ssa.If)
+		if !ok {
+			continue
+		}
+		bo, ok := iff.Cond.(*ssa.BinOp)
+		if !ok || bo.Op != token.LSS || bo.X != idx && bo.X != ssa.Value(phi) {
+			continue
+		}
+		if lc, isCall := bo.Y.(*ssa.Call); isCall {
+			if bi, isB := lc.Call.Value.(*ssa.Builtin); isB && bi.Name() == "len" && core.Strip(lc.Call.Args[0]) == core.Strip(ia.X) {
+				return true
+			}
+		}
+	}
+	return false
+}
